@@ -4,7 +4,7 @@ import numpy as np
 from ..core import Check, Violation
 from ..runner import Case
 from ..dataprog import NBProg, check_final_file, select
-from ..model import check_expectations, Expect, XT2MEM, load_error_codes
+from ..model import check_expectations, Expect, XT2MEM, TD, load_error_codes
 from .. import cdfspec as cs
 from .c02 import post_round, pick_spec
 
@@ -50,6 +50,37 @@ def probe_insuff(p, rng, rank, EC):
     return None
 
 
+def swap_put(p, rng):
+    """one collective blocking put without type conversion (the byte-swap-only path, in place above the threshold or by
+    hint), each rank through a different buffer description of the same bytes: typed API, flexible with
+    MPI_DATATYPE_NULL / the primitive type / a contiguous derived type of any divisor length / a one-block vector"""
+    cands = [k for k, v in enumerate(p.fm.vars) if v.ndims > 0 and cs.XSZ[v.xtype] > 1]
+    if not cands:
+        return
+    vid = rng.choice(cands)
+    v = p.fm.vars[vid]
+    prim = XT2MEM[v.xtype]
+    base = TD.prim_(prim)
+    for r, bx in enumerate(p.decompose(v, p.np)):
+        if bx is None:
+            st, ct, sd = p.zero_request(v)
+            p.one_access("put", r, vid, st, ct, sd, True, form=rng.choice(["vara", "vars", "varm"]))
+            continue
+        nelem = int(np.prod(bx[1]))
+        k = rng.random()
+        if k < 0.2 or nelem == 0:
+            mt, td = prim, None
+        elif k < 0.3:
+            mt, td = "flex", None
+        elif k < 0.4:
+            mt, td = "flex", base
+        elif k < 0.5:
+            mt, td = "flex", base.vector(1, nelem, nelem)
+        else:
+            mt, td = "flex", base.contig(rng.choice([x for x in range(1, nelem + 1) if nelem % x == 0]))
+        p.one_access("put", r, vid, bx[0], bx[1], bx[2], True, mt=mt, td=td, fam="std")
+
+
 def gen_case(rng, i, nprocs, EC):
     hints = ["nc_in_place_swap:%s" % rng.choice(["enable", "disable", "auto"])] if rng.random() < 0.7 else []
     if rng.random() < 0.3:
@@ -66,6 +97,8 @@ def gen_case(rng, i, nprocs, EC):
             p.attach(r, rng.choice([32, 200, 1024, 5000, 1 << 15]))
     for _ in range(rng.randint(1, 2)):
         p.coll_put(rng.randrange(len(p.fm.vars)))
+    for _ in range(rng.randint(0, 3)):
+        swap_put(p, rng)
     p.sync3()
     for phase in range(rng.randint(2, 5)):
         post_round(p, rng, maxreq=4, kinds=("bput", "bput", "iput", "iget"))
